@@ -1,25 +1,608 @@
+// vcheck is the driver of every registered check: it rebuilds the instrumented scratch copy
+// from /repo's current working tree, fans simulation runs out over worker processes,
+// minimises and replays candidate violations, matches them against known_findings.json,
+// writes the evidence file and prints KNOWN-FINDING / VIOLATION lines.
+//
+// Exit codes: 0 property held on everything explored, 1 violation, 2 machinery trouble.
 package main
 
 import (
+	"bytes"
+	"encoding/json"
 	"flag"
 	"fmt"
 	"os"
+	"os/exec"
+	"path/filepath"
+	"sort"
+	"strconv"
+	"strings"
+	"sync"
+	"time"
 
 	"verif/build"
 )
+
+type propConf struct {
+	Harness   string
+	Level     string
+	QuickRuns int
+	ThorRuns  int
+	QuickSecs float64
+	ThorSecs  float64
+	Rule      string
+	Assume    []string
+}
+
+var props = map[string]propConf{
+	"C10": {Harness: "hstream", Level: "exploration", QuickRuns: 24000, ThorRuns: 1500000, QuickSecs: 45, ThorSecs: 900,
+		Rule: "Each run is one simulated execution of the real util.MessageStream (reader, 25 parsers, writer, shutdown and drain goroutines) against a scripted connection. Scenario and schedule are derived from splitmix(VERIF_SEED, property, run index): 0-400 well-formed frames (sizes 8..65535 biased to 8, <64, around 2048 and multiples of it), a read-chunk plan (whole reads, 1-byte dribble, small/any random sizes, or cuts placed at frame start +0..+8, end-1 and around multiples of 2048), optional (0,nil) reads, arrival bursts in simulated time, a connection failure (EOF/reset/timeout) at a frame boundary, inside a length prefix, mid-body, after the first frame, after the last byte or before the first, optional local shutdown, consumer behaviour (eager, think time, stalls, stops) and slow parsers; the schedule strategy is uniform, sticky(p), PCT(d) or starve(class, windows) with a select-arm bias. A run counts as non-trivial when it has at least 2 frames and either a frame was split across reads or the reader was scheduled while a filled buffer was waiting for a parser; distinct = distinct digests of the complete decision+event trace.",
+		Assume: []string{"Go channel/goroutine semantics as implemented by the installed runtime", "SimConn follows *net.TCPConn semantics: Read returns n>0 or an error, never both; Write is atomic per call", "instrumenter preserves sequential semantics (the repository's unit tests pass on the instrumented copy; validated in the thorough tier)", "frames are pre-validated to parse to a non-nil message on the current tree so that codec defects are not imported into C10"}},
+	"C11": {Harness: "hstream", Level: "exploration", QuickRuns: 24000, ThorRuns: 1500000, QuickSecs: 45, ThorSecs: 900,
+		Rule: "Each run is one simulated execution of the real util.MessageStream with 1-16 stub producer tasks submitting 0-100 messages each through the cap-1 Outbound channel (raw util.Message implementations with unique xids and PRNG bodies of 8..65535 bytes, top-level util.Buffer messages, occasional resubmission of the same object), the real writer goroutine and a scripted connection whose Write can stall in simulated time below the 10 s write deadline; a third of the runs also carry inbound traffic. Schedules as for C10. A run is non-trivial when at least 2 producers had overlapping submissions; distinct = distinct digests of the complete decision+event trace.",
+		Assume: []string{"Go channel/goroutine semantics as implemented by the installed runtime", "SimConn.Write is atomic per call (net.Conn serialises concurrent writers)", "expected bytes of library messages come from an identically constructed twin object encoded once"}},
+}
+
+type knownFinding struct {
+	Status    string `json:"status"`
+	Property  string `json:"property"`
+	ID        string `json:"id"`
+	Commit    string `json:"commit,omitempty"`
+	What      string `json:"what"`
+	Signature struct {
+		Oracle string `json:"oracle"`
+		Class  string `json:"class"`
+		Site   string `json:"site,omitempty"`
+	} `json:"signature"`
+}
+
+type violation struct {
+	Property string          `json:"property"`
+	Oracle   string          `json:"oracle"`
+	Class    string          `json:"class"`
+	Site     string          `json:"site,omitempty"`
+	Detail   string          `json:"detail"`
+	RunSeed  uint64          `json:"run_seed"`
+	RunIndex int             `json:"run_index"`
+	Scenario json.RawMessage `json:"scenario,omitempty"`
+	Trace    []int32         `json:"decisions,omitempty"`
+	Hash     uint64          `json:"hash,omitempty"`
+}
+
+func (v *violation) key() string { return v.Property + "|" + v.Oracle + "|" + v.Class + "|" + v.Site }
+
+func die(code int, format string, a ...any) {
+	fmt.Fprintf(os.Stderr, "vcheck: "+format+"\n", a...)
+	os.Exit(code)
+}
+
+func scratchDir() string {
+	base := os.Getenv("VERIF_SCRATCH")
+	if base == "" {
+		base = "/var/tmp"
+	}
+	os.MkdirAll(base, 0o755)
+	d, err := os.MkdirTemp(base, "vcheck-")
+	if err != nil {
+		die(2, "cannot create scratch dir: %v", err)
+	}
+	return d
+}
 
 func main() {
 	prepare := flag.String("prepare", "", "dev: only assemble and build the instrumented scratch copy into this directory")
 	repo := flag.String("repo", "/repo", "repository working tree")
 	verif := flag.String("verif", "/verif", "verification directory")
+	prop := flag.String("property", "", "property id")
+	tier := flag.String("tier", "quick", "quick | thorough")
+	replay := flag.String("replay", "", "replay a file written by a check")
+	workers := flag.Int("workers", 16, "worker processes")
+	runsFlag := flag.Int("runs", 0, "override the number of runs")
+	keep := flag.Bool("keep", false, "keep the scratch directory")
 	flag.Parse()
+
 	if *prepare != "" {
 		res, err := build.Prepare(*repo, *verif, *prepare, flag.Args(), os.Stderr)
 		if err != nil {
-			fmt.Fprintln(os.Stderr, "vcheck:", err)
-			os.Exit(2)
+			die(2, "%v", err)
 		}
 		fmt.Println(res.Scratch)
 		return
 	}
+	if t := os.Getenv("VERIF_TIER"); t == "quick" || t == "thorough" {
+		*tier = t
+	}
+	seed := uint64(1)
+	if s := os.Getenv("VERIF_SEED"); s != "" {
+		v, err := strconv.ParseUint(s, 10, 64)
+		if err != nil {
+			if iv, err2 := strconv.ParseInt(s, 10, 64); err2 == nil {
+				v = uint64(iv)
+			} else {
+				die(2, "bad VERIF_SEED %q", s)
+			}
+		}
+		seed = v
+	}
+	if *replay != "" {
+		os.Exit(doReplay(*repo, *verif, *replay, *keep))
+	}
+	pc, ok := props[*prop]
+	if !ok {
+		die(2, "unknown or unclaimed property %q", *prop)
+	}
+	os.Exit(doCheck(*repo, *verif, *prop, pc, *tier, seed, *workers, *runsFlag, *keep))
+}
+
+func treeID(repo string) string {
+	out, _ := exec.Command("git", "-C", repo, "rev-parse", "--short", "HEAD").Output()
+	id := strings.TrimSpace(string(out))
+	st, _ := exec.Command("git", "-C", repo, "status", "--porcelain").Output()
+	if len(bytes.TrimSpace(st)) > 0 {
+		id += "+dirty"
+	}
+	return id
+}
+
+func doReplay(repo, verif, path string, keep bool) int {
+	b, err := os.ReadFile(path)
+	if err != nil {
+		die(2, "%v", err)
+	}
+	var hdr struct {
+		Property string `json:"property"`
+	}
+	if err := json.Unmarshal(b, &hdr); err != nil {
+		die(2, "bad replay file: %v", err)
+	}
+	pc, ok := props[hdr.Property]
+	if !ok {
+		die(2, "replay file is for unknown property %q", hdr.Property)
+	}
+	scratch := scratchDir()
+	if !keep {
+		defer os.RemoveAll(scratch)
+	}
+	res, err := build.Prepare(repo, verif, scratch, []string{pc.Harness}, os.Stderr)
+	if err != nil {
+		fmt.Fprintf(os.Stderr, "vcheck: %v\n", err)
+		os.RemoveAll(scratch)
+		return 2
+	}
+	abs, _ := filepath.Abs(path)
+	cmd := exec.Command(res.Bins[pc.Harness], "-mode", "replay", "-file", abs, "-v")
+	cmd.Env = append(os.Environ(), "GOMAXPROCS=1")
+	cmd.Stdout, cmd.Stderr = os.Stdout, os.Stderr
+	err = cmd.Run()
+	code := 0
+	if ee, ok := err.(*exec.ExitError); ok {
+		code = ee.ExitCode()
+	} else if err != nil {
+		code = 2
+	}
+	if code == 1 {
+		fmt.Printf("VIOLATION property=%s replay=%s\n", hdr.Property, abs)
+	}
+	if !keep {
+		os.RemoveAll(scratch)
+	}
+	return code
+}
+
+type summary struct {
+	Property      string             `json:"property"`
+	Runs          int                `json:"runs"`
+	Nontrivial    int                `json:"nontrivial"`
+	Steps         int64              `json:"steps"`
+	SimTimeNS     int64              `json:"sim_time_ns"`
+	WallS         float64            `json:"wall_s"`
+	Faults        map[string]int64   `json:"faults"`
+	Probes        map[string]int64   `json:"probes"`
+	Strategies    map[string]int64   `json:"strategies"`
+	Classes       map[string]int64   `json:"config_classes"`
+	EndKinds      map[string]int64   `json:"end_kinds"`
+	Maxima        map[string]float64 `json:"maxima"`
+	States        kmv                `json:"states"`
+	Transitions   kmv                `json:"transitions"`
+	Traces        kmv                `json:"traces"`
+	NontrivTraces kmv                `json:"nontrivial_traces"`
+	Violations    []violation        `json:"violations"`
+	ViolCounts    map[string]int64   `json:"violation_counts"`
+	Samples       []json.RawMessage  `json:"samples"`
+	SiteHits      map[string]uint64  `json:"site_hits"`
+	Trouble       string             `json:"trouble"`
+	DetHashes     map[string]uint64  `json:"det_hashes"`
+	Extra         map[string]any     `json:"extra"`
+}
+
+type kmv struct {
+	K    int      `json:"k"`
+	Vals []uint64 `json:"vals"`
+}
+
+func (k *kmv) merge(o kmv) {
+	if k.K == 0 {
+		k.K = o.K
+	}
+	m := map[uint64]struct{}{}
+	for _, v := range k.Vals {
+		m[v] = struct{}{}
+	}
+	for _, v := range o.Vals {
+		m[v] = struct{}{}
+	}
+	all := make([]uint64, 0, len(m))
+	for v := range m {
+		all = append(all, v)
+	}
+	sort.Slice(all, func(i, j int) bool { return all[i] < all[j] })
+	if k.K > 0 && len(all) > k.K {
+		all = all[:k.K]
+	}
+	k.Vals = all
+}
+
+func (k *kmv) estimate() int64 {
+	n := len(k.Vals)
+	if k.K == 0 || n < k.K {
+		return int64(n)
+	}
+	kth := k.Vals[n-1]
+	if kth == 0 {
+		return int64(n)
+	}
+	return int64(float64(n-1) / (float64(kth) / float64(^uint64(0))))
+}
+
+func addMap(dst, src map[string]int64) {
+	for k, v := range src {
+		dst[k] += v
+	}
+}
+
+func runWorker(bin string, args []string, gomaxprocs int, outFile string, timeout time.Duration) (*summary, error) {
+	cmd := exec.Command(bin, append(args, "-out", outFile)...)
+	cmd.Env = append(os.Environ(), fmt.Sprintf("GOMAXPROCS=%d", gomaxprocs), "GOMEMLIMIT=6GiB")
+	var stderr bytes.Buffer
+	cmd.Stderr = &stderr
+	done := make(chan error, 1)
+	if err := cmd.Start(); err != nil {
+		return nil, err
+	}
+	go func() { done <- cmd.Wait() }()
+	select {
+	case err := <-done:
+		if err != nil {
+			tail := stderr.String()
+			if len(tail) > 6000 {
+				tail = tail[len(tail)-6000:]
+			}
+			return nil, fmt.Errorf("worker failed: %v\n%s", err, tail)
+		}
+	case <-time.After(timeout):
+		cmd.Process.Kill()
+		return nil, fmt.Errorf("worker exceeded the wall-clock watchdog (%v)", timeout)
+	}
+	b, err := os.ReadFile(outFile)
+	if err != nil {
+		return nil, err
+	}
+	var s summary
+	if err := json.Unmarshal(b, &s); err != nil {
+		return nil, fmt.Errorf("worker summary: %v", err)
+	}
+	return &s, nil
+}
+
+func doCheck(repo, verif, prop string, pc propConf, tier string, seed uint64, workers, runsOverride int, keep bool) int {
+	start := time.Now()
+	fmt.Printf("vcheck: property=%s tier=%s VERIF_SEED=%d tree=%s\n", prop, tier, seed, treeID(repo))
+	scratch := scratchDir()
+	cleanup := func() {
+		if !keep {
+			os.RemoveAll(scratch)
+		}
+	}
+	res, err := build.Prepare(repo, verif, scratch, []string{pc.Harness}, os.Stdout)
+	if err != nil {
+		fmt.Fprintf(os.Stderr, "vcheck: %v\n", err)
+		cleanup()
+		return 2
+	}
+	bin := res.Bins[pc.Harness]
+	runs, secs := pc.QuickRuns, pc.QuickSecs
+	if tier == "thorough" {
+		runs, secs = pc.ThorRuns, pc.ThorSecs
+	}
+	if runsOverride > 0 {
+		runs = runsOverride
+	}
+	if workers < 1 {
+		workers = 1
+	}
+	per := (runs + workers - 1) / workers
+	wdir := filepath.Join(scratch, "work")
+	os.MkdirAll(wdir, 0o755)
+
+	var mu sync.Mutex
+	var sums []*summary
+	var werr error
+	var wg sync.WaitGroup
+	for k := 0; k < workers; k++ {
+		wg.Add(1)
+		go func(k int) {
+			defer wg.Done()
+			args := []string{"-mode", "run", "-property", prop, "-tier", tier, "-seed", strconv.FormatUint(seed, 10),
+				"-from", strconv.Itoa(k), "-stride", strconv.Itoa(workers), "-count", strconv.Itoa(per),
+				"-time-limit", strconv.FormatFloat(secs, 'f', 0, 64)}
+			s, err := runWorker(bin, args, 1, filepath.Join(wdir, fmt.Sprintf("w%d.json", k)), time.Duration(secs*3+120)*time.Second)
+			mu.Lock()
+			defer mu.Unlock()
+			if err != nil {
+				if werr == nil {
+					werr = err
+				}
+				return
+			}
+			sums = append(sums, s)
+		}(k)
+	}
+	// determinism self-check: the same run indices in two fresh processes at different GOMAXPROCS
+	detN := 48
+	if tier == "thorough" {
+		detN = 400
+	}
+	var det [2]*summary
+	var detErr error
+	for d := 0; d < 2; d++ {
+		wg.Add(1)
+		go func(d int) {
+			defer wg.Done()
+			args := []string{"-mode", "run", "-property", prop, "-tier", tier, "-seed", strconv.FormatUint(seed, 10),
+				"-from", "0", "-stride", "7", "-count", strconv.Itoa(detN), "-det"}
+			s, err := runWorker(bin, args, []int{4, 1}[d], filepath.Join(wdir, fmt.Sprintf("det%d.json", d)), time.Duration(secs*3+120)*time.Second)
+			mu.Lock()
+			defer mu.Unlock()
+			if err != nil {
+				detErr = err
+				return
+			}
+			det[d] = s
+		}(d)
+	}
+	wg.Wait()
+	if werr != nil || detErr != nil {
+		if werr == nil {
+			werr = detErr
+		}
+		fmt.Fprintf(os.Stderr, "vcheck: %v\n", werr)
+		cleanup()
+		return 2
+	}
+	detChecked := 0
+	for k, h := range det[0].DetHashes {
+		if h2, ok := det[1].DetHashes[k]; !ok || h2 != h {
+			fmt.Fprintf(os.Stderr, "vcheck: DETERMINISM SELF-CHECK FAILED: run index %s digests %d vs %d (machinery bug, not a property violation)\n", k, h, h2)
+			cleanup()
+			return 2
+		}
+		detChecked++
+	}
+
+	// merge
+	tot := &summary{Property: prop, Faults: map[string]int64{}, Probes: map[string]int64{}, Strategies: map[string]int64{},
+		Classes: map[string]int64{}, EndKinds: map[string]int64{}, Maxima: map[string]float64{}, ViolCounts: map[string]int64{}, SiteHits: map[string]uint64{}}
+	sort.Slice(sums, func(i, j int) bool { return len(sums[i].Violations) > len(sums[j].Violations) })
+	maxWall := 0.0
+	for _, s := range sums {
+		if s.Trouble != "" {
+			fmt.Fprintf(os.Stderr, "vcheck: harness trouble: %s\n", s.Trouble)
+			cleanup()
+			return 2
+		}
+		tot.Runs += s.Runs
+		tot.Nontrivial += s.Nontrivial
+		tot.Steps += s.Steps
+		tot.SimTimeNS += s.SimTimeNS
+		if s.WallS > maxWall {
+			maxWall = s.WallS
+		}
+		addMap(tot.Faults, s.Faults)
+		addMap(tot.Probes, s.Probes)
+		addMap(tot.Strategies, s.Strategies)
+		addMap(tot.Classes, s.Classes)
+		addMap(tot.EndKinds, s.EndKinds)
+		addMap(tot.ViolCounts, s.ViolCounts)
+		for k, v := range s.Maxima {
+			if v > tot.Maxima[k] {
+				tot.Maxima[k] = v
+			}
+		}
+		for k, v := range s.SiteHits {
+			tot.SiteHits[k] += v
+		}
+		tot.States.merge(s.States)
+		tot.Transitions.merge(s.Transitions)
+		tot.Traces.merge(s.Traces)
+		tot.NontrivTraces.merge(s.NontrivTraces)
+		tot.Violations = append(tot.Violations, s.Violations...)
+		if len(tot.Samples) < 3 {
+			tot.Samples = append(tot.Samples, s.Samples...)
+		}
+	}
+	if len(tot.Samples) > 3 {
+		tot.Samples = tot.Samples[:3]
+	}
+
+	// known findings
+	var known []knownFinding
+	if b, err := os.ReadFile(filepath.Join(verif, "known_findings.json")); err == nil {
+		if err := json.Unmarshal(b, &known); err != nil {
+			fmt.Fprintf(os.Stderr, "vcheck: known_findings.json: %v\n", err)
+			cleanup()
+			return 2
+		}
+	}
+	matchKnown := func(v *violation) *knownFinding {
+		for i := range known {
+			k := &known[i]
+			if k.Status != "open" || k.Property != v.Property {
+				continue
+			}
+			if k.Signature.Oracle == v.Oracle && k.Signature.Class == v.Class && (k.Signature.Site == "" || k.Signature.Site == v.Site) {
+				return k
+			}
+		}
+		return nil
+	}
+
+	// one representative per class, deterministic order
+	sort.SliceStable(tot.Violations, func(i, j int) bool {
+		if tot.Violations[i].key() != tot.Violations[j].key() {
+			return tot.Violations[i].key() < tot.Violations[j].key()
+		}
+		return tot.Violations[i].RunIndex < tot.Violations[j].RunIndex
+	})
+	seen := map[string]bool{}
+	knownObserved := map[string]int64{}
+	var reported []string
+	exit := 0
+	os.MkdirAll(filepath.Join(verif, "replays"), 0o755)
+	for i := range tot.Violations {
+		v := &tot.Violations[i]
+		if seen[v.key()] {
+			continue
+		}
+		seen[v.key()] = true
+		if k := matchKnown(v); k != nil {
+			knownObserved[k.ID] = tot.ViolCounts[v.key()]
+			continue
+		}
+		if len(reported) >= 5 {
+			continue
+		}
+		// raw replay file -> minimise -> replay in a fresh process
+		raw := filepath.Join(wdir, fmt.Sprintf("raw-%d.json", i))
+		rf := map[string]any{"property": prop, "run_seed": v.RunSeed, "tree": treeID(repo), "scenario": v.Scenario, "decisions": v.Trace,
+			"violation": map[string]any{"property": v.Property, "oracle": v.Oracle, "class": v.Class, "site": v.Site, "detail": v.Detail, "run_seed": v.RunSeed, "run_index": v.RunIndex},
+			"hash": v.Hash}
+		rb, _ := json.Marshal(rf)
+		os.WriteFile(raw, rb, 0o644)
+		name := fmt.Sprintf("%s-%s-%s-seed%d-run%d.json", prop, sanitize(v.Oracle), sanitize(v.Class), seed, v.RunIndex)
+		final := filepath.Join(verif, "replays", name)
+		mc := exec.Command(bin, "-mode", "minimize", "-file", raw, "-out", final)
+		mc.Env = append(os.Environ(), "GOMAXPROCS=1")
+		mout, merr := mc.CombinedOutput()
+		if merr != nil {
+			fmt.Fprintf(os.Stderr, "vcheck: minimisation of %s failed (%v): %s\n", v.key(), merr, mout)
+			// fall back to the raw file
+			os.WriteFile(final, rb, 0o644)
+		} else {
+			fmt.Printf("vcheck: %s", mout)
+		}
+		rc := exec.Command(bin, "-mode", "replay", "-file", final)
+		rc.Env = append(os.Environ(), "GOMAXPROCS=1")
+		rout, rerr := rc.CombinedOutput()
+		code := 0
+		if ee, ok := rerr.(*exec.ExitError); ok {
+			code = ee.ExitCode()
+		}
+		if code != 1 {
+			fmt.Fprintf(os.Stderr, "vcheck: candidate violation %s did not reproduce from its replay file in a fresh process (exit %d) — machinery trouble, not reported as a violation\n%s\n", v.key(), code, rout)
+			cleanup()
+			return 2
+		}
+		fmt.Printf("vcheck: violation oracle=%s class=%s site=%s seed=%d run=%d (seen in %d runs)\n        %s\n", v.Oracle, v.Class, v.Site, v.RunSeed, v.RunIndex, tot.ViolCounts[v.key()], v.Detail)
+		fmt.Printf("VIOLATION property=%s replay=%s\n", prop, final)
+		reported = append(reported, final)
+		exit = 1
+	}
+	for _, k := range known {
+		if k.Status == "open" && k.Property == prop {
+			fmt.Printf("KNOWN-FINDING: property=%s %s: %s (observed in %d of %d runs of this invocation)\n", prop, k.ID, k.What, knownObserved[k.ID], tot.Runs)
+		}
+	}
+
+	// evidence
+	wall := time.Since(start).Seconds()
+	distinct := tot.NontrivTraces.estimate()
+	if distinct > int64(tot.Nontrivial) {
+		distinct = int64(tot.Nontrivial)
+	}
+	cov := map[string]any{
+		"evaluations":         tot.Runs,
+		"distinct_nontrivial": distinct,
+		"rule":                pc.Rule,
+		"samples":             tot.Samples,
+		"nontrivial_runs":     tot.Nontrivial,
+		"scheduler_steps":     tot.Steps,
+		"simulated_time_s":    float64(tot.SimTimeNS) / 1e9,
+		"runs_per_hour":       int64(float64(tot.Runs) / maxNonZero(maxWall) * 3600),
+		"seeds_per_hour":      int64(float64(tot.Runs) / maxNonZero(maxWall) * 3600),
+		"worker_processes":    workers,
+		"faults_fired":        tot.Faults,
+		"probes":              tot.Probes,
+		"strategies":          tot.Strategies,
+		"config_classes":      tot.Classes,
+		"end_kinds":           tot.EndKinds,
+		"maxima":              tot.Maxima,
+		"abstract_states":     tot.States.estimate(),
+		"abstract_transitions": tot.Transitions.estimate(),
+		"distinct_traces":     tot.Traces.estimate(),
+		"distinct_measure":    "abstract state = (len of pool.Empty, pool.Full, Inbound, Outbound, Error, Shutdown, parserShutdown; multiset of (task class, gate kind, gate site) over all tasks; failure seen); transitions = (state, state', class of released task); counts above 16384 are k-minimum-values estimates",
+		"determinism_selfcheck": map[string]any{"runs_compared": detChecked, "processes": 2, "gomaxprocs": []int{4, 1}, "mismatches": 0},
+		"components": map[string]any{
+			"real": []string{"util/stream.go (MessageStream, BufferPool: reader, 25 parsers, writer, shutdown, drain goroutines)", "util/util.go", "openflow13.Parse and every decoder it reaches", "common", "protocol", "bytes.Buffer", "logrus", "Go runtime channels and goroutines"},
+			"stub": []string{"net.Conn (SimConn)", "peer switch (byte script, failures, write sink)", "controller application (consumer, error watcher, producers, shutdown request)", "choice of next goroutine and select arm (seeded strategy)", "clock (discrete-event)", "process exit (logrus ExitFunc)"},
+		},
+		"instrumentation":         res.Report.Counts,
+		"known_findings_observed": knownObserved,
+		"violation_classes":       tot.ViolCounts,
+		"replays":                 reported,
+		"tree":                    treeID(repo),
+	}
+	if len(tot.SiteHits) > 0 {
+		cov["decoder_entries"] = len(tot.SiteHits)
+	}
+	ev := map[string]any{
+		"property_id": prop, "tier": tier, "seed": seed, "level": pc.Level, "coverage": cov,
+		"assumptions": pc.Assume, "wall_s": wall, "violations": len(reported),
+	}
+	eb, _ := json.MarshalIndent(ev, "", " ")
+	os.MkdirAll(filepath.Join(verif, "evidence"), 0o755)
+	if err := os.WriteFile(filepath.Join(verif, "evidence", prop+".json"), eb, 0o644); err != nil {
+		fmt.Fprintf(os.Stderr, "vcheck: %v\n", err)
+		cleanup()
+		return 2
+	}
+	fmt.Printf("vcheck: %d runs (%d non-trivial, ~%d distinct), %d steps, %.1fs simulated, %d abstract states, wall %.1fs, exit %d\n",
+		tot.Runs, tot.Nontrivial, distinct, tot.Steps, float64(tot.SimTimeNS)/1e9, tot.States.estimate(), wall, exit)
+	cleanup()
+	if tot.Runs == 0 {
+		fmt.Fprintln(os.Stderr, "vcheck: no runs executed")
+		return 2
+	}
+	return exit
+}
+
+func maxNonZero(f float64) float64 {
+	if f <= 0 {
+		return 1
+	}
+	return f
+}
+
+func sanitize(s string) string {
+	var b strings.Builder
+	for _, r := range s {
+		if (r >= 'a' && r <= 'z') || (r >= 'A' && r <= 'Z') || (r >= '0' && r <= '9') || r == '-' {
+			b.WriteRune(r)
+		} else {
+			b.WriteByte('_')
+		}
+	}
+	if b.Len() > 40 {
+		return b.String()[:40]
+	}
+	return b.String()
 }
